@@ -58,6 +58,7 @@ Record result := {
 
 Definition bf : path := 0.        (* the build file (Makefile) *)
 Definition stamp : path := 1.     (* Makefile.stamp *)
+Definition cachef : path := 2.    (* .bfg_find_cache itself (its mtime is read by find_check_cache since the repair F1) *)
 
 Definition outputs_of (cf : conf) : list path := bf :: cf_outs cf.
 
@@ -130,12 +131,20 @@ Section Model.
   Definition predirs (t : tree) (c : cache) : list path :=
     fold_left (fun acc e => union_set acc (seen t (fst e))) c [].
 
-  (* bfg9000 regenerate --lazy : find_check_cache followed (unless AbortConfigure) by the scripts *)
-  Definition lazy (fx74 : bool) (w : world) (sv : option saved) : outcome :=
+  (* F1 (find_check_cache, first test after loading the cache): the cache file is strictly newer than
+     regen_files.outputs[0], the build file - a previous run saved the cache and died before it completed the build
+     file.  RegenerateFiles always lists the build file first; an empty list (IndexError in Python) is never saved *)
+  Definition first_output (s : saved) : path := match sv_outputs s with o :: _ => o | [] => bf end.
+  Definition cache_newer (w : world) (s : saved) : bool := mt w (first_output s) <? mt w cachef.
+
+  (* bfg9000 regenerate --lazy : find_check_cache followed (unless AbortConfigure) by the scripts.
+     fxc = true is find_check_cache with F1, false the code before it. *)
+  Definition lazy (fx74 fxc : bool) (w : world) (sv : option saved) : outcome :=
     match sv with
     | None => Ran (run fx74 w [] [])
     | Some s =>
-        if inputs_newer w s then Ran (run fx74 w [] [])
+        if fxc && cache_newer w s then Ran (run fx74 w [] [])
+        else if inputs_newer w s then Ran (run fx74 w [] [])
         else if replay_changed (w_tree w) (sv_cache s)
              then Ran (run fx74 w (prefill (w_tree w) (sv_cache s)) (predirs (w_tree w) (sv_cache s)))
              else Skip (filter (exists_b w) (sv_outputs s))
@@ -179,10 +188,18 @@ Section Model.
   Definition with_mt (w : world) (m : list (path * time)) : world :=
     {| w_tree := w_tree w; w_mt := m; w_conf := w_conf w |}.
 
+  (* a run that cached something saves .bfg_find_cache (before it writes the build file; one clock value per step,
+     so both carry the same time in the model and F1, a strict comparison, trusts that cache) *)
+  Definition cache_written (o : outcome) : list path :=
+    match o with
+    | Ran r => match r_cache r with [] => [] | _ => [cachef] end
+    | Skip _ => []
+    end.
+
   (* what the Make recipe leaves behind: bfg writes (Ran) or touches (Skip) the outputs, then, with a stamp,
      touch $@ *)
   Definition after_step (w : world) (o : outcome) (prim : path) (now : time) : world :=
-    let written := match o with Skip tl => tl | Ran r => r_outputs r end in
+    let written := (match o with Skip tl => tl | Ran r => r_outputs r end) ++ cache_written o in
     let m := set_all (w_mt w) written now in
     with_mt w (if N.eqb prim stamp then set_mt m stamp now else m).
 End Model.
